@@ -2,8 +2,8 @@
 (* Bounded instances of Steady and behaviour emission.                       *)
 EXTENDS Steady, Json
 
-Cl(p, l, d) == [prev |-> p, last |-> l, drift |-> d, stays |-> TRUE]
-ClLeaves(p, l, d) == [prev |-> p, last |-> l, drift |-> d, stays |-> FALSE]
+Cl(p, l, d) == [prev |-> p, last |-> l, drift |-> d, stays |-> TRUE, loose |-> FALSE]
+ClLeaves(p, l, d) == [prev |-> p, last |-> l, drift |-> d, stays |-> FALSE, loose |-> FALSE]
 
 (* a representative sub-grid for the second series of the quick instance: one class per   *)
 (* branch of the acceptance test and per sign                                            *)
@@ -25,14 +25,17 @@ YT == << "y", "_", "t", "o", "t", "a", "l" >>      \* y_total: contains y; LAG_y
 MY == << "m", "y" >>                               \* my: ends in y
 GAP == << "g", "a", "p" >>
 NoT(nms) == [i \in 1..Len(nms) |-> "none"]
-Sch(id, nms, grid, excls) == [id |-> id, names |-> nms, kinds |-> [i \in 1..Len(nms) |-> "solved"], tdep |-> NoT(nms),
+Sch(id, nms, grid, excls) == [id |-> id, names |-> nms, kinds |-> [i \in 1..Len(nms) |-> "solved"], tdep |-> NoT(nms), steptol |-> "none",
                               grid |-> grid, excls |-> excls]
 (* schemes with series whose equations mention the time axis *)
-SchT(id, nms, tds, grid, excls) == [id |-> id, names |-> nms, kinds |-> [i \in 1..Len(nms) |-> "solved"], tdep |-> tds,
+SchT(id, nms, tds, grid, excls) == [id |-> id, names |-> nms, kinds |-> [i \in 1..Len(nms) |-> "solved"], tdep |-> tds, steptol |-> "none",
                                     grid |-> grid, excls |-> excls]
+(* schemes in which the user has set the solver's own tolerance *)
+SchS(id, nms, st, grid, excls) == [id |-> id, names |-> nms, kinds |-> [i \in 1..Len(nms) |-> "solved"], tdep |-> NoT(nms),
+                                   steptol |-> st, grid |-> grid, excls |-> excls]
 MC_Trend == { Cl("pL", "pL", "large"), Cl("nL", "nL", "large") }
 (* schemes with a decorative series: an affine function of the solved series before it (gap = x1 - target) *)
-SchK(id, nms, kds, grid, excls) == [id |-> id, names |-> nms, kinds |-> kds, tdep |-> NoT(nms), grid |-> grid, excls |-> excls]
+SchK(id, nms, kds, grid, excls) == [id |-> id, names |-> nms, kinds |-> kds, tdep |-> NoT(nms), steptol |-> "none", grid |-> grid, excls |-> excls]
 (* classes a solved series can end in and still pass the test, at a large level and at a small one, and one that fails *)
 MC_Pass == { Cl("pL", "pL", "rel_small"), Cl("nL", "nL", "rel_small"), Cl("pL", "pL", "small"),
              Cl("nL", "nL", "small"), Cl("pL", "pL", "zero"), Cl("pL", "pL", "large") }
@@ -48,7 +51,10 @@ MC_SchemesQuick == {
     SchK(6, << X1, GAP >>, << "solved", "decorative" >>, << MC_Pass, MC_Few >>, { {}, {GAP} }),
     SchT(7, << X1 >>,     << "settled" >>,         << AllClasses >>,       { {} }),
     SchT(8, << X1, X2 >>, << "none", "settled" >>, << MC_Pass, MC_Few >>,  { {} }),
-    SchT(9, << X1, X2 >>, << "none", "trend" >>,   << MC_Pass, MC_Trend >>, { {}, {X2} }) }
+    SchT(9, << X1, X2 >>, << "none", "trend" >>,   << MC_Pass, MC_Trend >>, { {}, {X2} }),
+    SchS(10, << X1 >>,     "coarser", << LooseOf(AllClasses) >>,                { {} }),
+    SchS(11, << X1, X2 >>, "coarser", << LooseOf(MC_Pass), LooseOf(MC_Few) >>, { {}, {X2} }),
+    SchS(12, << X1 >>,     "finer",   << AllClasses >>,                         { {} }) }
 
 MC_SchemesThorough == {
     Sch(1, << X1, X2 >>, << AllClasses, AllClasses >>, AtMostOne(<< X1, X2 >>)),
@@ -56,14 +62,17 @@ MC_SchemesThorough == {
     Sch(3, << YT, Y >>,  << MC_Few, AllClasses >>,     { {YT}, {MY} }),
     SchK(4, << X1, GAP >>, << "solved", "decorative" >>, << MC_Pass, AllClasses >>, { {}, {GAP} }),
     SchT(5, << X1, X2 >>, << "settled", "settled" >>, << AllClasses, MC_Few >>,  { {}, {X2} }),
-    SchT(6, << X1, X2 >>, << "trend", "none" >>,      << MC_Trend, AllClasses >>, { {}, {X1} }) }
+    SchT(6, << X1, X2 >>, << "trend", "none" >>,      << MC_Trend, AllClasses >>, { {}, {X1} }),
+    SchS(7, << X1, X2 >>, "coarser", << LooseOf(AllClasses), LooseOf(MC_Few) >>, { {}, {X2} }),
+    SchS(8, << X1, X2 >>, "finer",   << AllClasses, MC_Few >>,                   { {} }) }
 (* (never excluded: a variable that a non-excluded one is computed from - see c15.py, assumptions) *)
 
 MC_SchemesThree == {
     Sch(1, << X1, X2, X3 >>, << AllClasses, MC_Few, MC_Few3 >>, AtMostOne(<< X1, X2, X3 >>)),
     Sch(2, << Y, X1, YT >>,  << MC_Few, MC_Few3, MC_Few3 >>,    { {YT}, {Y}, {X1, YT} }),
     SchK(3, << X1, GAP, X2 >>, << "solved", "decorative", "solved" >>, << MC_Pass, MC_Few, MC_Few3 >>, { {}, {X2} }),
-    SchT(4, << X1, X2, X3 >>, << "settled", "none", "trend" >>, << MC_Few, MC_Few3, MC_Trend >>, { {}, {X3} }) }
+    SchT(4, << X1, X2, X3 >>, << "settled", "none", "trend" >>, << MC_Few, MC_Few3, MC_Trend >>, { {}, {X3} }),
+    SchS(5, << X1, X2, X3 >>, "coarser", << LooseOf(MC_Few), MC_Few3, LooseOf(MC_Few3) >>, { {} }) }
 
 MC_SchemesFull3 == {
     Sch(1, << X1, X2, X3 >>, << AllClasses, AllClasses, AllClasses >>, AtMostOne(<< X1, X2, X3 >>)),
@@ -73,7 +82,7 @@ MC_SchemesFull3 == {
 
 (* every maximal behaviour is printed once, as JSON, for the replay driver *)
 Emit == Terminal =>
-          PrintT(<< "BEH", ToJson([n |-> n, names |-> names, kinds |-> kinds, tdep |-> tdep, option |-> option, excluded |-> excluded,
+          PrintT(<< "BEH", ToJson([n |-> n, names |-> names, kinds |-> kinds, tdep |-> tdep, steptol |-> steptol, option |-> option, excluded |-> excluded,
                                    sid |-> sid, wf |-> wf, runres |-> runres,
                                    cls |-> cls, phase |-> phase, exc |-> exc]) >>)
 =============================================================================
